@@ -159,7 +159,7 @@ Proof.
       * apply (shape_set_res result (S finished) (S finished - 1) diag Hs); lia.
     + destruct (m_at size result (S finished - 1) tentative) as [v|]; [|discriminate].
       destruct (nth_error result tentative) as [[o2 rt]|]; [|discriminate].
-      destruct (negb (ltb Nm v rt)); inversion Hstep; subst st'; cbn [fst snd];
+      destruct (geb Nm v rt); inversion Hstep; subst st'; cbn [fst snd];
         (split; [|reflexivity]); unfold inv; repeat split; try lia; apply Hs.
 Qed.
 
@@ -752,7 +752,7 @@ Proof.
     rewrite (m_at_defined Nm closure size result _ _ H3 H4).
     destruct (nth_error result tentative) as [[o2 rt]|] eqn:Et.
     2:{ apply nth_error_None in Et. lia. }
-    destruct (negb (ltb Nm (closure result (S finished - 1) tentative) rt)); eexists; reflexivity.
+    destruct (geb Nm (closure result (S finished - 1) tentative) rt); eexists; reflexivity.
 Qed.
 
 Lemma online_loop_total : forall n st,
